@@ -46,7 +46,9 @@ def stims(draw, cfg, max_ops):
         if we:
             op.update(data=draw(st.integers(0, (1 << dw) - 1)), be=full if draw(st.integers(0, 2)) else draw(st.integers(0, full)), lead=draw(st.sampled_from([0, 0, 1, 4])))
         ops.append(op)
-    return dict(ops=ops, slave=draw(pc.slave_sched()), wait_reads=draw(st.integers(0, 5)) == 0)
+    # "any back-pressure": the user may also stall the read data it gets from the crossing (an ordinary stream on that side)
+    return dict(ops=ops, slave=draw(pc.slave_sched()), wait_reads=draw(st.integers(0, 5)) == 0,
+                rready=draw(st.sampled_from([None, None, None, [1, 1], [2, 5], [1, 12], [0, 30, 100, 0], [3, 1]])))
 
 
 def evaluate(cfg, stim, backend="fast"):
@@ -62,7 +64,8 @@ def evaluate(cfg, stim, backend="fast"):
             if gt is not None and lost[0].startswith("R"):
                 pulsed = sum(1 for g, t in ev["r_pulse"] if g < gt)
                 deliv = sum(1 for g, t in ev["r_deliv"] if g < gt)
-                f["key"] = "rdata_fifo_full" if pulsed - deliv >= cfg["rdata_depth"] - 3 else "R-other"
+                # the listed finding is an overrun of a FIFO of the DECLARED depth; a word lost with fewer words inside is something else
+                f["key"] = "rdata_fifo_full" if pulsed - deliv >= cfg["rdata_depth"] - 3 else "R-other"      # (-3: the read pointer crosses the domains with 2-3 cycles of delay)
                 f["what"] += " [%d read words strobed, %d delivered to the user side, rdata FIFO depth %d]" % (pulsed, deliv, cfg["rdata_depth"])
             elif gt is not None:
                 pushed = sum(1 for g, t in ev["w_push"] if g < gt)
@@ -86,6 +89,8 @@ def evaluate(cfg, stim, backend="fast"):
         classes.add("coprime_periods")
     if run.backpressure_cycles > 0:
         classes.add("backpressure")
+    if stim.get("rready"):
+        classes.add("user_stalls_read_data")
     if len(stim["ops"]) >= 8:
         classes.add(">=8_commands")
     classes.add("user faster" if pu < ps else "user slower" if pu > ps else "equal periods")
